@@ -55,18 +55,21 @@ MODELS = {
 CONC = {
     "C01": dict(families=["deploy", "rollout"], invs=["C01_a", "C01_b", "C01_c"], dinvs=["D_C01_a", "D_C01_b", "D_C01_c"]),
     "C02": dict(families=["deploy"], invs=["C02"], dinvs=["D_C02"]),
-    "C03": dict(families=["deploy", "pause", "rollout"], invs=["C03_a", "C03_b", "C03_c"], dinvs=["D_C03_a", "D_C03_b", "D_C03_p"]),
-    "C05": dict(families=["own"], invs=["C05_a"], dinvs=["O_Ownership", "O_SomeoneWins", "A_RefusalJustified"]),
+    "C03": dict(families=["deploy", "pause", "rollout", "dueldrain"], invs=["C03_a", "C03_b", "C03_c"], dinvs=["D_C03_a", "D_C03_b", "D_C03_p"]),
+    "C05": dict(families=["own", "duelown"], invs=["C05_a"], dinvs=["O_Ownership", "O_SomeoneWins", "A_RefusalJustified"]),
     "C06": dict(families=["own"], invs=["C06_b"], dinvs=["O_FailedLeavesNothing", "A_FailChangesNothing", "O_NoLeak"]),
     "C07": dict(families=["pause"], invs=["C07_a", "C07_b", "C07_c", "C07_d", "C07_e", "C07_f"], dinvs=["D_C07_a", "D_C07_b", "D_C07_f"]),
     "C08": dict(families=["pause"], invs=["C08", "C08_fwd"], dinvs=["D_C08", "D_C07_a"]),
-    "C09": dict(families=["health", "rollout"], invs=["C09_a", "C09_b", "C09_c", "C09_d"], dinvs=["D_C09"]),
+    "C09": dict(families=["health", "rollout", "duelprobe"], invs=["C09_a", "C09_b", "C09_c", "C09_d"], dinvs=["D_C09"]),
     "C12": dict(families=["snap"], invs=["C12_a", "C12_b"], dinvs=["S_Complete", "S_Window", "S_Current", "S_Mutex"]),
     "C17": dict(families=["deploy", "pause", "rollout"], invs=["C17_a", "C17_b", "C17_c"], dinvs=["D_C17_c"]),
 }
 
-SIZES = {"quick": {"deploy": 160, "pause": 160, "rollout": 128, "own": 240, "health": 160, "snap": 240},
-         "thorough": {"deploy": 4000, "pause": 4000, "rollout": 3000, "own": 4000, "health": 3000, "snap": 4000}}
+# the duel families (harness/gen_duel.go) are a few milliseconds each
+SIZES = {"quick": {"deploy": 160, "pause": 160, "rollout": 128, "own": 240, "health": 160, "snap": 240,
+                   "duelown": 3000, "dueldrain": 3000, "duelprobe": 1500},
+         "thorough": {"deploy": 4000, "pause": 4000, "rollout": 3000, "own": 4000, "health": 3000, "snap": 4000,
+                      "duelown": 40000, "dueldrain": 40000, "duelprobe": 20000}}
 SIMS = {"quick": 30, "thorough": 500}
 MC_TIMEOUT = {"quick": 240, "thorough": 1500}
 DTRACE_LIMIT = {"quick": 96, "thorough": None}   # scenarios validated against the design model per run
@@ -226,7 +229,7 @@ def run_conc(prop, tier, seed, replay=None):
     # design-level conformance: the internal hook events of the same runs must be a behaviour of spec/Proxy.tla
     import dtrace
     dres = dtrace.validate([os.path.join(o, "trace.ndjson") for o in outs], limit=DTRACE_LIMIT[tier],
-                           kind={"snap": "snap", "own": "own"}.get(spec["families"][0] if len(spec["families"]) == 1 else "", "proxy"))
+                           kind={"snap": "snap", "own": "own"}.get(spec["families"][0], "proxy"))
     shutil.rmtree(dres.pop("wd"), ignore_errors=True)
     if replay:
         os.makedirs(os.path.join(vlib.VERIF, "out", prop), exist_ok=True)
